@@ -650,5 +650,855 @@ static void runB1(const KCase& c, Ctx& ctx)
 }
 VERIF_SUB(block1_vs_point, KCase, genB1, runB1);
 
+// ====================================================================== 4a. migrate: ball tree vs exhaustive ==
+struct MigCase
+{
+  int ndim = 2;
+  vfgeo::Points src, dst;
+  std::vector<int> sel1, sel2;
+  int distType = 1;
+  std::vector<double> dmax;
+  template<class A> void io(A& a) { a("ndim", ndim)("src", src)("dst", dst)("sel1", sel1)("sel2", sel2)("distType", distType)("dmax", dmax); }
+};
+// criterion of st_larger_than_dmax (read from CalcMigrate.cpp): value > 1 <=> rejected
+static double dmaxCrit(int ndim, const double* a, const double* b, int distType, const std::vector<double>& dmax)
+{
+  if (dmax.empty()) return 0.;
+  double r = 0;
+  for (int d = 0; d < ndim; d++)
+  {
+    double q = (a[d] - b[d]) / dmax[(size_t)d];
+    if (distType == 1) r = std::max(r, std::fabs(q));
+    else r += q * q;
+  }
+  return r;
+}
+static MigCase genMig()
+{
+  MigCase c;
+  c.ndim = G::pick<int>({1, 2, 2, 3});
+  int n1 = G::pct(60) ? G::sz(1, 40) : G::sz(20, 160);
+  int n2 = G::sz(1, 12);
+  vfgeo::Lattice lat;
+  std::vector<vfgeo::Points> sets = vfgeo::genPointSets(c.ndim, {n1, n2}, G::pct(30), true, -1., &lat);
+  c.src = sets[0];
+  if (n1 > 1 && G::pct(35))
+  {
+    c.sel1.assign((size_t)n1, 1);
+    int p = G::pick<int>({10, 30, 60});
+    for (int i = 1; i < n1; i++)
+      if (G::pct(p)) c.sel1[(size_t)i] = 0;
+  }
+  int dm = G::pick<int>({0, 0, 0, 1, 2, 3});
+  c.distType = (dm == 3) ? 1 : (dm == 0 ? G::pick<int>({1, 2}) : 2);
+  if (dm != 0)
+  {
+    double r0 = lat.L * G::lu(0.03, 1.);
+    for (int d = 0; d < c.ndim; d++) c.dmax.push_back((dm == 1) ? r0 : lat.L * G::lu(0.03, 1.));
+  }
+  // ties and boundaries are excluded by the property: keep the targets whose answer has a margin
+  double mrg = 1e-7 * lat.L;
+  c.dst.ndim = c.ndim;
+  std::vector<int> keep;
+  for (int t = 0; t < n2; t++)
+  {
+    const double* x = sets[1].p(t);
+    bool ok = true;
+    std::vector<double> dAll, dAct, dIn;
+    for (int i = 0; i < n1 && ok; i++)
+    {
+      double d = vfgeo::euclid(c.ndim, x, c.src.p(i));
+      double cr = dmaxCrit(c.ndim, x, c.src.p(i), c.distType, c.dmax);
+      if (!c.dmax.empty() && std::fabs(cr - 1.) < 1e-6) ok = false;
+      bool act = c.sel1.empty() || c.sel1[(size_t)i];
+      dAll.push_back(d);
+      if (act) dAct.push_back(d);
+      if (act && cr <= 1.) dIn.push_back(d);
+    }
+    for (auto* v : {&dAll, &dAct, &dIn})
+    {
+      std::sort(v->begin(), v->end());
+      if (v->size() >= 2 && (*v)[1] - (*v)[0] <= mrg) ok = false;
+    }
+    if (ok) { c.dst.push(x); keep.push_back(t); }
+  }
+  if (c.dst.n() > 1 && G::pct(25))
+  {
+    c.sel2.assign((size_t)c.dst.n(), 1);
+    for (int i = 1; i < c.dst.n(); i++)
+      if (G::pct(30)) c.sel2[(size_t)i] = 0;
+  }
+  return c;
+}
+static std::unique_ptr<Db> pointsDb(const vfgeo::Points& P, const std::vector<int>& sel)
+{
+  std::unique_ptr<Db> db(Db::create());
+  for (int d = 0; d < P.ndim; d++) db->addColumns(colOf(P, d), "x" + std::to_string(d + 1), ELoc::X, d);
+  if (!sel.empty())
+  {
+    VectorDouble e((size_t)P.n());
+    for (int i = 0; i < P.n(); i++) e[i] = (double)sel[(size_t)i];
+    db->addColumns(e, "sel", ELoc::SEL, 0);
+  }
+  return db;
+}
+static void runMig(const MigCase& c, Ctx& ctx)
+{
+  resetGlobals(c.ndim);
+  int n1 = c.src.n(), n2 = c.dst.n();
+  ctx.label("ndim:" + std::to_string(c.ndim));
+  ctx.label(c.sel1.empty() ? "src:all-active" : "src:selection");
+  ctx.label(c.dmax.empty() ? "dmax:none" : (c.distType == 1 ? "dmax:L1" : "dmax:L2"));
+  ctx.label(n1 > 30 ? "tree:several-leaves" : "tree:one-leaf");
+  if (n1 < 1 || n2 < 1) { ctx.label("degenerate:empty"); return; }
+  std::unique_ptr<Db> db1 = pointsDb(c.src, c.sel1), db2 = pointsDb(c.dst, c.sel2);
+  VectorDouble val((size_t)n1);
+  for (int i = 0; i < n1; i++) val[i] = 1000. + i; // one distinct value per source sample: equal outputs <=> same sample
+  db1->addColumns(val, "v", ELoc::Z, 0);
+  VectorDouble dm;
+  for (double v : c.dmax) dm.push_back(v);
+  ctx.at("migrate:exhaustive");
+  int e1 = migrate(db1.get(), db2.get(), "v", c.distType, dm, false, false, false, NamingConvention("ME"));
+  int ce = db2->getColumnNumber() - 1;
+  VectorDouble E = db2->getColumnByColIdx(ce, false);
+  ctx.at("migrate:ball");
+  int e2 = migrate(db1.get(), db2.get(), "v", c.distType, dm, false, false, true, NamingConvention("MB"));
+  int cb = db2->getColumnNumber() - 1;
+  VectorDouble B = db2->getColumnByColIdx(cb, false);
+  if (e1 != e2 || (e1 == 0 && (cb != ce + 1 || (int)E.size() != n2 || (int)B.size() != n2)))
+  {
+    ctx.fail("migrate:status", fmt("exhaustive err %d, ball err %d, columns %d -> %d", e1, e2, ce, cb));
+    return;
+  }
+  if (e1) { ctx.label("migrate-error-both"); return; }
+  int nCmp = 0;
+  bool maskedNearest = false;
+  for (int t = 0; t < n2; t++)
+  {
+    bool same = (isNA(E[t]) && isNA(B[t])) || E[t] == B[t];
+    // classification of the target by the harness's own exhaustive search
+    int jAll = -1;
+    double dAll = 1e300;
+    for (int i = 0; i < n1; i++)
+    {
+      double d = vfgeo::euclid(c.ndim, c.dst.p(t), c.src.p(i));
+      if (d < dAll) { dAll = d; jAll = i; }
+    }
+    bool masked = !c.sel1.empty() && !c.sel1[(size_t)jAll];
+    bool outside = dmaxCrit(c.ndim, c.dst.p(t), c.src.p(jAll), c.distType, c.dmax) > 1.;
+    maskedNearest = maskedNearest || masked;
+    nCmp++;
+    if (!same)
+    {
+      std::string key = masked ? "migrate:ball:masked-source" : (outside ? "migrate:ball:dmax-nearest-outside" : "migrate:ball-vs-exhaustive");
+      ctx.fail(key, fmt("target %d: exhaustive search gives sample %s, ball tree gives sample %s (nearest of all rows: %d, %s, %s dmax)", t,
+                        isNA(E[t]) ? "none" : std::to_string((int)(E[t] - 1000)).c_str(), isNA(B[t]) ? "none" : std::to_string((int)(B[t] - 1000)).c_str(), jAll,
+                        masked ? "masked by the selection" : "active", outside ? "outside" : "inside / no"));
+      return;
+    }
+  }
+  if (maskedNearest) ctx.label("nearest-row-masked");
+  ctx.nontrivial(nCmp > 0 && n1 >= 2);
+  ctx.sig = Hash().add(c.ndim).add(n1 < 4 ? n1 : (n1 <= 30 ? 4 : 5)).add(c.sel1.empty() ? 0 : 1).add(c.sel2.empty() ? 0 : 1).add((int)c.dmax.size()).add(c.distType).add(maskedNearest ? 1 : 0).add(n2).h;
+}
+VERIF_SUB(migrate_ball, MigCase, genMig, runMig);
+
+// ====================================================================== 4b. moving neighbourhood: ball search on / off ==
+struct NbCase
+{
+  int ndim = 2;
+  vfgeo::Points data, targ;
+  std::vector<double> z;
+  std::vector<int> sel;
+  int nmaxi = 5, nmini = 1, hasRadius = 0, nsect = 1, nsmax = 0, leaf = 10;
+  double radius = 1., L = 1.;
+  std::vector<double> coef;
+  template<class A> void io(A& a)
+  {
+    a("ndim", ndim)("data", data)("targ", targ)("z", z)("sel", sel)("nmaxi", nmaxi)("nmini", nmini)("hasRadius", hasRadius)("nsect", nsect)(
+      "nsmax", nsmax)("leaf", leaf)("radius", radius)("L", L)("coef", coef);
+  }
+};
+static NbCase genNb()
+{
+  NbCase c;
+  c.ndim = G::pick<int>({1, 2, 2, 3});
+  int n = G::sz(1, 90), nt = G::sz(1, 6);
+  vfgeo::Lattice lat;
+  std::vector<vfgeo::Points> sets = vfgeo::genPointSets(c.ndim, {n, nt}, G::pct(30), true, -1., &lat);
+  c.data = sets[0];
+  c.targ = sets[1];
+  c.L = lat.L;
+  c.z.resize((size_t)n);
+  for (auto& v : c.z) v = G::r(-10, 10, 4);
+  if (G::pct(25))
+    for (int i = 1; i < n; i++)
+      if (G::pct(15)) c.z[(size_t)i] = NA;
+  if (n > 1 && G::pct(30))
+  {
+    c.sel.assign((size_t)n, 1);
+    for (int i = 1; i < n; i++)
+      if (G::pct(20)) c.sel[(size_t)i] = 0;
+  }
+  c.nmaxi = G::pct(85) ? G::i(1, std::max(1, std::min(n, 15))) : G::i(1, n + 3);
+  c.nmini = std::min(c.nmaxi, G::pick<int>({1, 1, 1, 2, 3})); // nmini <= nmaxi: a consistent neighbourhood definition
+  c.hasRadius = G::pct(50) ? 1 : 0;
+  c.radius = c.L * G::lu(0.2, 3.);
+  bool iso = G::pct(85);
+  double c0 = G::pick<double>({1., 1., 1., 2., 0.5});
+  for (int d = 0; d < c.ndim; d++) c.coef.push_back(iso ? c0 : G::lu(0.25, 4.));
+  if (c.ndim >= 2 && G::pct(12))
+  {
+    c.nsect = G::pick<int>({2, 4, 8});
+    c.nsmax = G::pct(50) ? G::i(1, 3) : 0;
+  }
+  c.leaf = G::pct(50) ? G::i(1, 5) : G::i(6, 30);
+  return c;
+}
+static void runNb(const NbCase& c, Ctx& ctx)
+{
+  resetGlobals(c.ndim);
+  int n = c.data.n(), nt = c.targ.n();
+  ctx.label("ndim:" + std::to_string(c.ndim));
+  if (n < 1 || nt < 1) { ctx.label("degenerate:empty"); return; }
+  std::unique_ptr<Db> dbin = pointsDb(c.data, c.sel), dbout = pointsDb(c.targ, std::vector<int>());
+  VectorDouble zz((size_t)n);
+  for (int i = 0; i < n; i++) zz[i] = c.z[(size_t)i];
+  dbin->addColumns(zz, "z1", ELoc::Z, 0);
+  VectorDouble coeffs;
+  for (double v : c.coef) coeffs.push_back(v);
+  std::unique_ptr<NeighMoving> plain(NeighMoving::create(false, c.nmaxi, c.hasRadius ? c.radius : TEST, c.nmini, c.nsect, c.nsmax > 0 ? c.nsmax : ITEST, coeffs, VectorDouble()));
+  std::unique_ptr<NeighMoving> ball(NeighMoving::create(false, c.nmaxi, c.hasRadius ? c.radius : TEST, c.nmini, c.nsect, c.nsmax > 0 ? c.nsmax : ITEST, coeffs, VectorDouble()));
+  if (!plain || !ball) { ctx.fail("harness:neigh", "NeighMoving::create failed"); return; }
+  ball->setBallSearch(true, c.leaf);
+  ctx.at("attach");
+  if (plain->attach(dbin.get(), dbout.get()) || ball->attach(dbin.get(), dbout.get())) { ctx.fail("harness:attach", "attach failed"); return; }
+  bool iso = true;
+  for (double v : c.coef) iso = iso && v == c.coef[0];
+  vfgeo::Aniso metric = vfgeo::Aniso::make(c.ndim, c.coef, std::vector<double>());
+  int nCmp = 0;
+  bool binds = false;
+  for (int k = 0; k < nt; k++)
+  {
+    VectorInt r0, r1;
+    ctx.at("select:scan");
+    plain->select(k, r0);
+    ctx.at("select:ball");
+    ball->select(k, r1);
+    // precondition of the property: the nmaxi Euclidean-nearest rows exist and are all admissible; the candidate
+    // restriction of the ball search is then provably harmless only with one sector and when the neighbourhood
+    // metric orders the samples like the Euclidean one (or nothing is cut: nmaxi == n)
+    std::string why;
+    if (c.nmaxi > n) why = "nmaxi>n";
+    else if (c.nsect > 1 && c.ndim > 1) why = "sectors";
+    else if (!iso && c.nmaxi != n) why = "anisotropic";
+    else
+    {
+      vfgeo::KnnRef kn = vfgeo::bruteKnn(c.data, c.targ.p(k));
+      for (int q = 0; q < c.nmaxi && why.empty(); q++)
+      {
+        int i = kn.idx[(size_t)q];
+        bool adm = (c.sel.empty() || c.sel[(size_t)i]) && !isNA(c.z[(size_t)i]);
+        if (!adm) why = "nearest-not-admissible";
+        else if (c.hasRadius)
+        {
+          double h = metric.dist(c.targ.p(k), c.data.p(i));
+          if (std::fabs(h - c.radius) <= 1e-6 * c.radius) why = "on-radius";
+          else if (h > c.radius) why = "nearest-beyond-radius";
+        }
+      }
+      if (why.empty() && c.nmaxi < n && kn.dist[(size_t)c.nmaxi] - kn.dist[(size_t)c.nmaxi - 1] <= 1e-6 * c.L) why = "tie";
+    }
+    if (!why.empty()) { ctx.label("skip:ball:" + why); continue; }
+    nCmp++;
+    std::vector<int> a(r1.begin(), r1.end()), b(r0.begin(), r0.end());
+    std::sort(a.begin(), a.end());
+    std::sort(b.begin(), b.end());
+    if (c.nmaxi < n) binds = true;
+    if (a != b)
+    {
+      std::string sa, sb;
+      for (int v : a) sa += std::to_string(v) + " ";
+      for (int v : b) sb += std::to_string(v) + " ";
+      ctx.fail("neigh-ball:select", fmt("target %d: ball search {%s}, scan {%s} (n %d nmaxi %d nmini %d radius %s leaf %d)", k, sa.c_str(), sb.c_str(), n, c.nmaxi, c.nmini,
+                                        c.hasRadius ? "yes" : "no", c.leaf));
+      return;
+    }
+  }
+  ctx.label(nCmp ? "ball:compared" : "ball:none-compared");
+  ctx.nontrivial(nCmp > 0 && n >= 2 && binds);
+  ctx.sig = Hash().add(c.ndim).add(n < 4 ? n : (n < 12 ? 4 : (n < 40 ? 5 : 6))).add(c.nmaxi).add(c.nmini).add(c.hasRadius).add(c.sel.empty() ? 0 : 1).add(c.leaf < n ? 1 : 0).add(nCmp).h;
+}
+VERIF_SUB(neigh_ball, NbCase, genNb, runNb);
+
+// ====================================================================== 6. collocated cokriging vs added datum ==
+struct CcCase
+{
+  KCase k;
+  std::vector<int> colvar;   // nvar flags: variable collocated
+  std::vector<double> zc;    // ntarg*nvar collocated values (NA: none)
+  std::vector<int> ops;      // getter order (KrigingCalcul variant)
+  template<class A> void io(A& a) { a("k", k)("colvar", colvar)("zc", zc)("ops", ops); }
+};
+static CcCase genCc()
+{
+  CcCase c;
+  GenOpt o;
+  o.movingPct = 0;
+  o.nvarMin = 2;
+  o.onDataPct = 0;
+  o.farPct = 5;
+  o.verrPct = 0;
+  o.intrinsicPct = 0;
+  o.heteroPct = 50;
+  o.selPct = 20;
+  o.nMax = 30;
+  c.k = genCase(o);
+  int nv = c.k.nvar, nt = c.k.ntarg();
+  c.colvar.assign((size_t)nv, 0);
+  int keep = G::i(0, nv - 1); // one variable at least is not collocated
+  bool any = false;
+  for (int v = 0; v < nv; v++)
+    if (v != keep && G::pct(70)) { c.colvar[(size_t)v] = 1; any = true; }
+  if (!any) c.colvar[(size_t)((keep + 1) % nv)] = 1;
+  c.zc.resize((size_t)(nt * nv));
+  for (int k = 0; k < nt; k++)
+    for (int v = 0; v < nv; v++) c.zc[(size_t)(k * nv + v)] = (c.colvar[(size_t)v] && !G::pct(10)) ? G::r(-40, 40, 8) : NA;
+  int nops = G::i(2, 8);
+  for (int q = 0; q < nops; q++) c.ops.push_back(G::i(0, 2));
+  return c;
+}
+static void runCc(const CcCase& cc, Ctx& ctx)
+{
+  const KCase& c = cc.k;
+  labelCase(c, ctx);
+  ctx.sig = signature(c);
+  int nt = c.ntarg(), nv = c.nvar;
+  bool wantVarz = c.flagVarz != 0;
+  std::string V = c.family();
+  double eta = etaIn(c);
+  int nChecked = 0, nIll = 0, nCol = 0;
+  // without any ordinary datum the neighbourhood is empty before the collocated datum is considered: out of scope
+  if (admissibleAll(c).empty()) { ctx.label("no-data"); return; }
+  for (int k = 0; k < nt; k++)
+  {
+    const double* x = c.targ.p(k);
+    const double* f = c.nfex ? &c.ftar[(size_t)(k * c.nfex)] : nullptr;
+    std::vector<double> zk(cc.zc.begin() + k * nv, cc.zc.begin() + (k + 1) * nv);
+    bool any = false;
+    for (double v : zk) any = any || !isNA(v);
+    // fast path: collocated option, one target
+    KCase a = oneTarget(c, x, f);
+    World wa;
+    if (!buildWorld(a, wa, ctx)) return;
+    VectorInt rank((size_t)nv);
+    for (int v = 0; v < nv; v++)
+    {
+      rank[v] = -1;
+      if (!cc.colvar[(size_t)v]) continue;
+      VectorDouble col(1);
+      col[0] = zk[(size_t)v];
+      wa.dbout->addColumns(col, "col" + std::to_string(v + 1));
+      rank[v] = wa.dbout->getUID("col" + std::to_string(v + 1));
+    }
+    ctx.at("kriging:colcok:" + V);
+    KRes A = runK(wa.dbin.get(), wa.dbout.get(), wa.model.get(), wa.neigh.get(), nv, false, VectorInt(), rank, "KC", wantVarz);
+    // reference path: the collocated datum added to the data
+    KCase b = any ? oneTarget(addSample(c, x, zk, f), x, f) : a;
+    World wb;
+    if (!buildWorld(b, wb, ctx)) return;
+    ctx.at("kriging:added-datum:" + V);
+    KRes B = runK(wb.dbin.get(), wb.dbout.get(), wb.model.get(), wb.neigh.get(), nv, false, VectorInt(), VectorInt(), "KA", wantVarz);
+    if (A.err != B.err || A.cols != B.cols)
+    {
+      ctx.fail("colcok:status:" + V, fmt("collocated option: err %d cols %d; added datum: err %d cols %d", A.err, (int)A.cols, B.err, (int)B.cols));
+      return;
+    }
+    if (A.err || !A.cols) { ctx.label("kriging-error-both"); continue; }
+    Orc orc;
+    if (!makeOracle(b, wb.dbout.get(), orc)) { ctx.fail("harness:model", "oracle model"); return; }
+    std::vector<int> nb = admissibleAll(b);
+    if (nb.empty()) continue;
+    Sys S;
+    orc.o->solve(0, pointGeom(c.ndim, x), nb, S);
+    if (!S.solved || !(S.kappa <= kKappaMax)) { nIll++; continue; }
+    nChecked++;
+    if (any) nCol++;
+    for (int tv = 0; tv < nv; tv++)
+    {
+      Tol t = tolOf(S, eta, tv, 0.);
+      if (!cmpVal(ctx, "colcok:estim:" + V, "estim", k, tv, A.est[(size_t)tv], B.est[(size_t)tv], t.e, S.kappa)) return;
+      if (!cmpVal(ctx, "colcok:stdev:" + V, "stdev", k, tv, A.sd[(size_t)tv], B.sd[(size_t)tv], t.v, S.kappa, true)) return;
+      if (wantVarz && !cmpVal(ctx, "colcok:varz:" + V, "varz", k, tv, A.vz[(size_t)tv], B.vz[(size_t)tv], t.v, S.kappa)) return;
+    }
+  }
+  if (nChecked == 0 && nIll > 0) ctx.inconclusive("ill-conditioned");
+  ctx.nontrivial(nCol > 0);
+}
+VERIF_SUB(colcok_vs_added, CcCase, genCc, runCc);
+
+// ====================================================================== 7. KrigingCalcul vs the kriging system ==
+// Inputs of the calculator built with the library's own helpers, as tests/cpp/test_Schur.cpp does.
+struct KcIn
+{
+  VectorDouble Z, Z2, means;
+  MatrixSquareSymmetric Sigma, SigmaS, Sigma00, Sigma00S;
+  MatrixRectangular X;
+  bool hasX = false;
+  std::vector<MatrixRectangular> Sigma0, Sigma0S, X0;
+  int neq = 0;
+  double kappaSigma = 0.;
+};
+static const double kZScale = 2., kCovScale = 4.;
+static bool buildKcIn(const KCase& c, Db* dbin, Db* dbout, Ctx& ctx, KcIn& in)
+{
+  Ctx d;
+  std::unique_ptr<Model> m = buildModel(c, d); // own model: nothing is shared with the kriging() call
+  if (!m) { ctx.fail("harness:model", "model for the calculator"); return false; }
+  int nv = c.nvar, nt = dbout->getSampleNumber();
+  in.means.resize((size_t)nv);
+  for (int v = 0; v < nv; v++) in.means[v] = (c.order < 0) ? c.means[(size_t)v] : 0.;
+  ctx.at("kcalc:inputs");
+  in.Sigma = m->evalCovMatrixSymmetric(dbin);
+  in.neq = in.Sigma.getNRows();
+  in.Z = dbin->getMultipleValuesActive(VectorInt(), VectorInt(), in.means);
+  if (in.neq <= 0 || (int)in.Z.size() != in.neq) { ctx.fail("harness:kcalc-inputs", fmt("Sigma %d rows, Z %d values", in.neq, (int)in.Z.size())); return false; }
+  in.Z2 = in.Z;
+  for (int i = 0; i < in.neq; i++) in.Z2[i] = kZScale * in.Z[i];
+  in.hasX = c.order >= 0;
+  if (in.hasX)
+  {
+    in.X = m->evalDriftMatrix(dbin);
+    if (in.X.getNRows() != in.neq) { ctx.fail("harness:kcalc-inputs", fmt("X %d rows, Sigma %d", in.X.getNRows(), in.neq)); return false; }
+  }
+  in.Sigma00 = MatrixSquareSymmetric(nv);
+  for (int a = 0; a < nv; a++)
+    for (int b = 0; b <= a; b++) in.Sigma00.setValue(a, b, m->eval0(a, b));
+  in.SigmaS = in.Sigma;
+  in.SigmaS.prodScalar(kCovScale);
+  in.Sigma00S = in.Sigma00;
+  in.Sigma00S.prodScalar(kCovScale);
+  for (int k = 0; k < nt; k++)
+  {
+    VectorInt one(1);
+    one[0] = k;
+    in.Sigma0.push_back(m->evalCovMatrix(dbin, dbout, -1, -1, VectorInt(), one));
+    in.Sigma0S.push_back(in.Sigma0.back());
+    in.Sigma0S.back().prodScalar(kCovScale);
+    if (in.hasX) in.X0.push_back(m->evalDriftMatrix(dbout, -1, one));
+    if (in.Sigma0.back().getNRows() != in.neq || in.Sigma0.back().getNCols() != nv || (in.hasX && (in.X0.back().getNRows() != nv || in.X0.back().getNCols() != in.X.getNCols())))
+    {
+      ctx.fail("harness:kcalc-inputs", "Sigma0 / X0 dimensions");
+      return false;
+    }
+  }
+  Eigen::MatrixXd S(in.neq, in.neq);
+  for (int i = 0; i < in.neq; i++)
+    for (int j = 0; j < in.neq; j++) S(i, j) = in.Sigma.getValue(i, j);
+  Eigen::JacobiSVD<Eigen::MatrixXd> svd(S);
+  double smin = svd.singularValues()(in.neq - 1);
+  in.kappaSigma = smin > 0 ? svd.singularValues()(0) / smin : INFINITY;
+  return true;
+}
+static GenOpt optKc()
+{
+  GenOpt o;
+  o.movingPct = 0;
+  o.intrinsicPct = 0;
+  o.verrPct = 0;
+  o.heteroPct = 45;
+  o.selPct = 25;
+  o.nMax = 30;
+  return o;
+}
+static void zeroSomeMeans(KCase& c)
+{
+  if (c.order < 0 && G::pct(50))
+    for (auto& v : c.means) v = 0.;
+}
+
+// ---------------------------------------------------------------- 7a/7b. primal and dual ----
+struct KcCase
+{
+  KCase k;
+  std::vector<int> ops; // 0 estimation, 1 stdv, 2 variance of Z*, 3 next target, 4 toggle data scale, 5 toggle covariance scale
+  template<class A> void io(A& a) { a("k", k)("ops", ops); }
+};
+static KcCase genKc()
+{
+  KcCase c;
+  c.k = genCase(optKc());
+  zeroSomeMeans(c.k);
+  int nops = G::i(3, 14);
+  for (int q = 0; q < nops; q++) c.ops.push_back(G::pick<int>({0, 0, 1, 1, 2, 2, 3, 3, 4, 5}));
+  return c;
+}
+static void runKc(const KcCase& kc, Ctx& ctx, bool dual)
+{
+  const KCase& c = kc.k;
+  labelCase(c, ctx);
+  ctx.sig = Hash().add(signature(c)).add(dual ? 1 : 0).add((int)kc.ops.size()).h;
+  World w;
+  if (!buildWorld(c, w, ctx)) return;
+  int nt = c.ntarg(), nv = c.nvar;
+  std::vector<int> all = admissibleAll(c);
+  if (all.empty()) { ctx.label("no-data"); return; }
+  bool wantVarz = c.flagVarz != 0;
+  std::string V = c.family();
+  bool nzMean = false;
+  for (double v : c.means) nzMean = nzMean || v != 0.;
+  std::string cls = V + ((c.order < 0 && nzMean) ? ":nonzero-mean" : "");
+  if (c.order < 0) ctx.label(nzMean ? "SK:nonzero-mean" : "SK:zero-mean");
+  KcIn in;
+  if (!buildKcIn(c, w.dbin.get(), w.dbout.get(), ctx, in)) return;
+  ctx.at("kriging:reference:" + V);
+  KRes R = runK(w.dbin.get(), w.dbout.get(), w.model.get(), w.neigh.get(), nv, false, VectorInt(), VectorInt(), "KR", wantVarz);
+  if (R.err || !R.cols) { ctx.fail("kcalc:reference-error:" + V, "kriging() fails on a valid configuration"); return; }
+  Orc orc;
+  if (!makeOracle(c, w.dbout.get(), orc)) { ctx.fail("harness:model", "oracle model"); return; }
+  double eta = etaIn(c);
+  std::vector<Sys> sys((size_t)nt);
+  for (int k = 0; k < nt; k++) orc.o->solve(k, pointGeom(c.ndim, c.targ.p(k)), all, sys[(size_t)k]);
+  if (!(in.kappaSigma <= kKappaMax)) { ctx.inconclusive("ill-conditioned"); return; }
+
+  std::string P = dual ? "kcalc-dual" : "kcalc";
+  KrigingCalcul kcal(dual);
+  int k = 0;
+  bool zs = false, cs = false;
+  ctx.at(P + ":setters");
+  if (kcal.setData(&in.Z, &in.means) || kcal.setLHS(&in.Sigma, in.hasX ? &in.X : nullptr) || kcal.setRHS(&in.Sigma0[0], in.hasX ? &in.X0[0] : nullptr) ||
+      (!dual && kcal.setVar(&in.Sigma00)))
+  {
+    ctx.fail(P + ":setter-error:" + V, "a setter of KrigingCalcul rejects consistent inputs");
+    return;
+  }
+  int nChecked = 0, nIll = 0;
+  std::vector<int> ops = kc.ops;
+  ops.push_back(0);
+  if (!dual) { ops.push_back(1); ops.push_back(2); }
+  for (int op : ops)
+  {
+    if (op == 3)
+    {
+      k = (k + 1) % nt;
+      ctx.at(P + ":setRHS");
+      if (kcal.setRHS(cs ? &in.Sigma0S[(size_t)k] : &in.Sigma0[(size_t)k], in.hasX ? &in.X0[(size_t)k] : nullptr)) { ctx.fail(P + ":setter-error:" + V, "setRHS"); return; }
+      continue;
+    }
+    if (op == 4)
+    {
+      zs = !zs;
+      ctx.at(P + ":setData");
+      if (kcal.setData(zs ? &in.Z2 : &in.Z, &in.means)) { ctx.fail(P + ":setter-error:" + V, "setData"); return; }
+      continue;
+    }
+    if (op == 5)
+    {
+      cs = !cs;
+      ctx.at(P + ":setLHS");
+      if (kcal.setLHS(cs ? &in.SigmaS : &in.Sigma, in.hasX ? &in.X : nullptr) || kcal.setRHS(cs ? &in.Sigma0S[(size_t)k] : &in.Sigma0[(size_t)k], in.hasX ? &in.X0[(size_t)k] : nullptr) ||
+          (!dual && kcal.setVar(cs ? &in.Sigma00S : &in.Sigma00)))
+      {
+        ctx.fail(P + ":setter-error:" + V, "setLHS/setRHS/setVar");
+        return;
+      }
+      continue;
+    }
+    if (dual && op != 0) continue;
+    if (op == 2 && !wantVarz) continue;
+    const Sys& S = sys[(size_t)k];
+    if (!S.solved || !(S.kappa <= kKappaMax)) { nIll++; continue; }
+    double kap = std::max(S.kappa, in.kappaSigma);
+    ctx.at(P + (op == 0 ? ":getEstimation" : (op == 1 ? ":getStdv" : ":getVarianceZstar")));
+    VectorDouble got = (op == 0) ? kcal.getEstimation() : (op == 1 ? kcal.getStdv() : kcal.getVarianceZstar());
+    const char* what = (op == 0) ? "estimation" : (op == 1 ? "stdv" : "varZ*");
+    std::string key = P + ":" + (op == 0 ? "estim" : (op == 1 ? "stdev" : "varz")) + ":" + cls;
+    if ((int)got.size() != nv)
+    {
+      ctx.fail(key + ":size", fmt("%s: %d values returned for %d variables (target %d, data scale %d, cov scale %d)", what, (int)got.size(), nv, k, (int)zs, (int)cs));
+      return;
+    }
+    nChecked++;
+    for (int tv = 0; tv < nv; tv++)
+    {
+      size_t q = (size_t)(k * nv + tv);
+      Tol t = tolOf(S, eta, tv, in.kappaSigma);
+      double m = in.means[tv];
+      double expd;
+      LD tol;
+      if (op == 0) { expd = zs ? m + kZScale * (R.est[q] - m) : R.est[q]; tol = t.e * (zs ? kZScale : 1.) * 5; }
+      else if (op == 1) { expd = cs ? std::sqrt(kCovScale) * R.sd[q] : R.sd[q]; tol = t.v * (cs ? kCovScale : 1.) * 5; }
+      else { expd = cs ? kCovScale * R.vz[q] : R.vz[q]; tol = t.v * (cs ? kCovScale : 1.) * 5; }
+      if (!cmpVal(ctx, key, what, k, tv, got[tv], expd, tol, kap, op == 1)) return;
+    }
+  }
+  if (nChecked == 0 && nIll > 0) ctx.inconclusive("ill-conditioned");
+  ctx.nontrivial(nChecked > 0 && (int)all.size() >= 2 && (interesting(c) || c.order >= 0 || nv > 1));
+}
+static void runKcPrimal(const KcCase& c, Ctx& ctx) { runKc(c, ctx, false); }
+static void runKcDual(const KcCase& c, Ctx& ctx) { runKc(c, ctx, true); }
+VERIF_SUB(kcalc_primal, KcCase, genKc, runKcPrimal);
+VERIF_SUB(kcalc_dual, KcCase, genKc, runKcDual);
+
+// ---------------------------------------------------------------- 7c. weights ----
+static KcCase genKcL()
+{
+  KcCase c;
+  GenOpt o = optKc();
+  o.nMax = 20;
+  c.k = genCase(o);
+  int nops = G::i(1, 4);
+  for (int q = 0; q < nops; q++) c.ops.push_back(G::pick<int>({0, 1, 3}));
+  return c;
+}
+static void runKcLambda(const KcCase& kc, Ctx& ctx)
+{
+  const KCase& c = kc.k;
+  labelCase(c, ctx);
+  ctx.sig = signature(c);
+  World w;
+  if (!buildWorld(c, w, ctx)) return;
+  int nt = c.ntarg(), nv = c.nvar;
+  std::vector<int> all = admissibleAll(c);
+  if (all.empty()) { ctx.label("no-data"); return; }
+  std::string V = c.family();
+  KcIn in;
+  if (!buildKcIn(c, w.dbin.get(), w.dbout.get(), ctx, in)) return;
+  if (!(in.kappaSigma <= kKappaMax)) { ctx.inconclusive("ill-conditioned"); return; }
+  int k = (nt == 1) ? 0 : 1 + (int)(kc.ops.size() % (size_t)(nt - 1)); // krigtest(iech0 = 0) loops over all targets
+  Orc orc;
+  if (!makeOracle(c, w.dbout.get(), orc)) { ctx.fail("harness:model", "oracle model"); return; }
+  Sys S;
+  orc.o->solve(k, pointGeom(c.ndim, c.targ.p(k)), all, S);
+  if (!S.solved || !(S.kappa <= kKappaMax)) { ctx.inconclusive("ill-conditioned"); return; }
+  ctx.at("krigtest:reference:" + V);
+  Krigtest_Res kt = krigtest(w.dbin.get(), w.dbout.get(), w.model.get(), w.neigh.get(), k, EKrigOpt::POINT, VectorInt(), false, false);
+  if (kt.wgt.getNRows() != S.N || kt.wgt.getNCols() != nv || S.nu != in.neq) { ctx.fail("harness:kcalc-lambda", fmt("krigtest weights %dx%d, system %d, calculator %d equations", kt.wgt.getNRows(), kt.wgt.getNCols(), S.N, in.neq)); return; }
+  KrigingCalcul kcal(false);
+  ctx.at("kcalc:setters");
+  if (kcal.setData(&in.Z, &in.means) || kcal.setLHS(&in.Sigma, in.hasX ? &in.X : nullptr) || kcal.setRHS(&in.Sigma0[(size_t)k], in.hasX ? &in.X0[(size_t)k] : nullptr) || kcal.setVar(&in.Sigma00))
+  {
+    ctx.fail("kcalc:setter-error:" + V, "a setter of KrigingCalcul rejects consistent inputs");
+    return;
+  }
+  for (int op : kc.ops)
+  {
+    if (op == 0) (void)kcal.getEstimation();
+    if (op == 1) (void)kcal.getStdv();
+  }
+  ctx.at("kcalc:getLambda");
+  const MatrixRectangular* L = kcal.getLambda();
+  if (L == nullptr)
+  {
+    ctx.fail("kcalc:lambda:null", "getLambda() returns no matrix although every input is present and getEstimation() works");
+    return;
+  }
+  if (L->getNRows() != in.neq || L->getNCols() != nv) { ctx.fail("kcalc:lambda:dims", fmt("getLambda() is %dx%d for %d equations and %d variables", L->getNRows(), L->getNCols(), in.neq, nv)); return; }
+  double kap = std::max(S.kappa, in.kappaSigma);
+  double eta = etaIn(c);
+  for (int tv = 0; tv < nv; tv++)
+  {
+    LD wmax = 0;
+    for (int r = 0; r < S.N; r++) wmax = std::max(wmax, fabsl(S.sol(r, tv)));
+    LD tol = 10 * (LD)epsK(kap, eta) * wmax + (LD)10 * (LD)epsIn(eta) * (LD)S.covScale * (LD)S.sminInv * sqrtl((LD)S.N);
+    for (int r = 0; r < in.neq; r++)
+      if (!cmpVal(ctx, "kcalc:lambda:" + V, "weight", k, tv, L->getValue(r, tv), kt.wgt.getValue(r, tv), tol, kap)) return;
+  }
+  if (in.hasX)
+  {
+    ctx.at("kcalc:getMu");
+    const MatrixRectangular* M = kcal.getMu();
+    if (M == nullptr || M->getNRows() != S.nfeq || M->getNCols() != nv) { ctx.fail("kcalc:mu:dims", "getMu() absent or of the wrong size"); return; }
+  }
+  ctx.nontrivial((int)all.size() >= 2);
+}
+VERIF_SUB(kcalc_lambda, KcCase, genKcL, runKcLambda);
+
+// ---------------------------------------------------------------- 7d. Bayesian ----
+struct ByCase
+{
+  KCase k;
+  std::vector<double> pmean, pA; // prior mean (nfeq), prior covariance = A A' + eps I (nfeq x nfeq)
+  double peps = 1.;
+  std::vector<int> ops;          // 0 estimation, 1 stdv, 2 posterior mean, 3 posterior covariance, 4 next target
+  template<class A> void io(A& a) { a("k", k)("pmean", pmean)("pA", pA)("peps", peps)("ops", ops); }
+};
+static ByCase genBy()
+{
+  ByCase c;
+  GenOpt o = optKc();
+  o.family = G::pick<int>({1, 1, 1, 2, 3});
+  o.nvarMax = G::pct(80) ? 1 : 2;
+  o.selPct = 15;
+  o.heteroPct = 20;
+  o.nMax = 24;
+  c.k = genCase(o);
+  int nfeq = c.k.nvar * (monoCount(c.k.ndim, c.k.order) + c.k.nfex);
+  for (int i = 0; i < nfeq; i++) c.pmean.push_back(G::r(-20, 20, 4));
+  for (int i = 0; i < nfeq * nfeq; i++) c.pA.push_back(G::r(-2, 2, 4));
+  c.peps = G::pick<double>({0.1, 1., 4.});
+  int nops = G::i(2, 10);
+  for (int q = 0; q < nops; q++) c.ops.push_back(G::i(0, 4));
+  return c;
+}
+static void runBy(const ByCase& bc, Ctx& ctx)
+{
+  const KCase& c = bc.k;
+  labelCase(c, ctx);
+  ctx.sig = Hash().add(signature(c)).add((int)bc.ops.size()).h;
+  World w;
+  if (!buildWorld(c, w, ctx)) return;
+  int nt = c.ntarg(), nv = c.nvar;
+  std::vector<int> all = admissibleAll(c);
+  if (all.empty()) { ctx.label("no-data"); return; }
+  int nbfl = monoCount(c.ndim, c.order) + c.nfex, nf = nv * nbfl;
+  bool dropped = (int)all.size() != c.n();
+  std::string cls = (nv > 1) ? "multivariate" : (dropped ? "masked-or-undefined-samples" : (nbfl > 1 ? "drift-functions" : "constant-mean"));
+  ctx.label("bayes:" + cls);
+  KcIn in;
+  if (!buildKcIn(c, w.dbin.get(), w.dbout.get(), ctx, in)) return;
+  if (!(in.kappaSigma <= kKappaMax) || in.X.getNCols() != nf) { ctx.inconclusive("ill-conditioned"); return; }
+  VectorDouble pm((size_t)nf);
+  MatrixSquareSymmetric pc(nf);
+  MatL Sp(nf, nf), mp(nf, 1);
+  for (int i = 0; i < nf; i++)
+  {
+    pm[i] = bc.pmean[(size_t)i];
+    mp(i, 0) = pm[i];
+    for (int j = 0; j < nf; j++)
+    {
+      double v = (i == j) ? bc.peps : 0.;
+      for (int r = 0; r < nf; r++) v += bc.pA[(size_t)(i * nf + r)] * bc.pA[(size_t)(j * nf + r)];
+      Sp(i, j) = v;
+      if (j <= i) pc.setValue(i, j, v);
+    }
+  }
+  // textbook Bayesian kriging from the very matrices given to the calculator (long double)
+  int ne = in.neq;
+  MatL Sg(ne, ne), X(ne, nf), Zv(ne, 1);
+  for (int i = 0; i < ne; i++)
+  {
+    Zv(i, 0) = in.Z[i];
+    for (int j = 0; j < ne; j++) Sg(i, j) = in.Sigma.getValue(i, j);
+    for (int j = 0; j < nf; j++) X(i, j) = in.X.getValue(i, j);
+  }
+  Eigen::FullPivLU<MatL> luS(Sg), luP(Sp);
+  MatL SiX = luS.solve(X), SiZ = luS.solve(Zv), Spi = luP.inverse();
+  MatL Qc = X.transpose() * SiX + Spi;
+  Eigen::JacobiSVD<Eigen::MatrixXd> svq(Qc.cast<double>());
+  double kq = svq.singularValues()(nf - 1) > 0 ? svq.singularValues()(0) / svq.singularValues()(nf - 1) : INFINITY;
+  Eigen::JacobiSVD<Eigen::MatrixXd> svp(Sp.cast<double>());
+  double kp = svp.singularValues()(0) / svp.singularValues()(nf - 1);
+  if (!(kq <= 1e8) || !(kp <= 1e8)) { ctx.inconclusive("ill-conditioned"); return; }
+  MatL Sc = Eigen::FullPivLU<MatL>(Qc).inverse();
+  MatL beta = Sc * (X.transpose() * SiZ + Spi * mp);
+  double kap = std::max(in.kappaSigma, std::max(kq, kp));
+  double er = std::max(1e-9, 1e3 * kEps * in.kappaSigma * std::max(kq, kp));
+
+  // kribayes() overruns its buffers when samples are masked or wholly undefined (recorded finding): the call
+  // is only skipped when that finding is passed in the exclusion list, so that the search can go on behind it
+  if (dropped && vf::isExcluded("asan:kribayes:masked-or-undefined-samples"))
+  {
+    ctx.fail("asan:kribayes:masked-or-undefined-samples", "known: heap-buffer-overflow in KrigingSystem::_bayesPreCalculations");
+    return;
+  }
+  ctx.at("kribayes");
+  int err = kribayes(w.dbin.get(), w.dbout.get(), w.model.get(), w.neigh.get(), pm, pc, true, true, NamingConvention("BY"));
+  std::vector<double> be((size_t)(nt * nv), NA), bs((size_t)(nt * nv), NA);
+  if (!err)
+    for (int v = 0; v < nv; v++)
+    {
+      std::string base = "BY.z" + std::to_string(v + 1);
+      if (w.dbout->getUID(base + ".estim") < 0 || w.dbout->getUID(base + ".stdev") < 0) { err = 2; break; }
+      VectorDouble e = w.dbout->getColumn(base + ".estim", false), s = w.dbout->getColumn(base + ".stdev", false);
+      for (int k = 0; k < nt; k++) { be[(size_t)(k * nv + v)] = e[k]; bs[(size_t)(k * nv + v)] = s[k]; }
+    }
+  if (err) { ctx.fail("kcalc-bayes:kribayes-error:" + cls, fmt("kribayes() fails (%d) on a valid configuration", err)); return; }
+
+  KrigingCalcul kcal(false);
+  ctx.at("kcalc-bayes:setters");
+  if (kcal.setData(&in.Z, &in.means) || kcal.setLHS(&in.Sigma, &in.X) || kcal.setRHS(&in.Sigma0[0], &in.X0[0]) || kcal.setVar(&in.Sigma00) || kcal.setBayes(&pm, &pc))
+  {
+    ctx.fail("kcalc-bayes:setter-error", "a setter of KrigingCalcul rejects consistent inputs");
+    return;
+  }
+  int k = 0, nChecked = 0;
+  std::vector<int> ops = bc.ops;
+  for (int q = 0; q < 4; q++) ops.push_back(q);
+  for (int op : ops)
+  {
+    if (op == 4)
+    {
+      k = (k + 1) % nt;
+      if (kcal.setRHS(&in.Sigma0[(size_t)k], &in.X0[(size_t)k])) { ctx.fail("kcalc-bayes:setter-error", "setRHS"); return; }
+      continue;
+    }
+    // algebra for target k
+    MatL S0(ne, nv), X0(nv, nf), S00(nv, nv);
+    for (int i = 0; i < ne; i++)
+      for (int v = 0; v < nv; v++) S0(i, v) = in.Sigma0[(size_t)k].getValue(i, v);
+    for (int v = 0; v < nv; v++)
+    {
+      for (int j = 0; j < nf; j++) X0(v, j) = in.X0[(size_t)k].getValue(v, j);
+      for (int u = 0; u < nv; u++) S00(v, u) = in.Sigma00.getValue(v, u);
+    }
+    MatL lam = luS.solve(S0);
+    MatL Y0 = X0 - lam.transpose() * X;
+    MatL zs = lam.transpose() * Zv + Y0 * beta;
+    MatL var = S00 - lam.transpose() * S0 + Y0 * Sc * Y0.transpose();
+    nChecked++;
+    if (op == 0 || op == 1)
+    {
+      ctx.at(op == 0 ? "kcalc-bayes:getEstimation" : "kcalc-bayes:getStdv");
+      VectorDouble got = (op == 0) ? kcal.getEstimation() : kcal.getStdv();
+      if ((int)got.size() != nv) { ctx.fail("kcalc-bayes:size", fmt("%d values for %d variables", (int)got.size(), nv)); return; }
+      for (int tv = 0; tv < nv; tv++)
+      {
+        LD sc = 0;
+        for (int i = 0; i < ne; i++) sc += fabsl(lam(i, tv) * Zv(i, 0));
+        for (int j = 0; j < nf; j++) sc += fabsl(Y0(tv, j) * beta(j, 0));
+        LD sv = fabsl(S00(tv, tv)) + fabsl((lam.col(tv).transpose() * S0.col(tv))(0, 0)) + fabsl((Y0.row(tv) * Sc * Y0.row(tv).transpose())(0, 0));
+        LD expd = (op == 0) ? zs(tv, 0) : std::max((LD)0, var(tv, tv));
+        LD tol = (LD)er * ((op == 0) ? sc : sv) + 1e-300L;
+        LD g = (op == 0) ? (LD)got[tv] : (LD)got[tv] * got[tv];
+        if (!(fabsl(g - expd) <= tol))
+        {
+          ctx.fail(std::string("kcalc-bayes:algebra:") + (op == 0 ? "estim" : "stdev"), fmt("target %d var %d: calculator %.15Lg, Bayesian kriging formulae on the same matrices %.15Lg (tol %.3Lg, kappa %.3g)", k, tv, g, expd, tol, kap));
+          return;
+        }
+        // the standard path
+        double kb = (op == 0) ? be[(size_t)(k * nv + tv)] : bs[(size_t)(k * nv + tv)];
+        LD kg = (op == 0) ? (LD)kb : (LD)kb * kb;
+        if (isNA(kb) || !(fabsl(kg - g) <= 10 * tol))
+        {
+          ctx.fail(std::string("kcalc-bayes:kribayes:") + (op == 0 ? "estim:" : "stdev:") + cls, fmt("target %d var %d: kribayes() %.15Lg, calculator %.15Lg, formulae %.15Lg (tol %.3Lg, %d drift equations, %d of %d samples used)", k, tv, kg, g, expd, 10 * tol, nf, (int)all.size(), c.n()));
+          return;
+        }
+      }
+    }
+    else if (op == 2)
+    {
+      ctx.at("kcalc-bayes:getPostMean");
+      VectorDouble got = kcal.getPostMean();
+      if ((int)got.size() != nf) { ctx.fail("kcalc-bayes:size", "posterior mean size"); return; }
+      LD sc = beta.cwiseAbs().maxCoeff() + mp.cwiseAbs().maxCoeff();
+      for (int j = 0; j < nf; j++)
+        if (!(fabsl((LD)got[j] - beta(j, 0)) <= (LD)er * sc)) { ctx.fail("kcalc-bayes:algebra:postmean", fmt("coefficient %d: calculator %.15g, formula %.15Lg", j, got[j], beta(j, 0))); return; }
+    }
+    else
+    {
+      ctx.at("kcalc-bayes:getPostCov");
+      const MatrixSquareSymmetric* got = kcal.getPostCov();
+      if (got == nullptr || got->getNRows() != nf) { ctx.fail("kcalc-bayes:size", "posterior covariance size"); return; }
+      LD sc = Sc.cwiseAbs().maxCoeff();
+      for (int i = 0; i < nf; i++)
+        for (int j = 0; j < nf; j++)
+          if (!(fabsl((LD)got->getValue(i, j) - Sc(i, j)) <= (LD)er * sc)) { ctx.fail("kcalc-bayes:algebra:postcov", fmt("(%d,%d): calculator %.15g, formula %.15Lg", i, j, got->getValue(i, j), Sc(i, j))); return; }
+    }
+  }
+  ctx.nontrivial(nChecked > 0 && (int)all.size() >= 2);
+}
+VERIF_SUB(kcalc_bayes, ByCase, genBy, runBy);
+
 //@@NEXT@@
 VERIF_MAIN()
